@@ -39,6 +39,11 @@ pub enum Op {
     Req(u8, PktSpec),
     App(u8, Vec<(u16, Vec<u8>)>, Vec<u8>),
     Peek(u8, PktSpec),
+    /// exchange the pending request (the one `App` answers) with the one held aside, so that
+    /// two exchanges can overlap: req A | swap | req B | swap | app A | swap | app B
+    Swap,
+    /// `clear_option(n)` on the pending reply: leaves emptied entries behind
+    AppClr(Vec<u16>),
 }
 
 impl Op {
@@ -56,6 +61,8 @@ impl Op {
                 s
             }
             Op::Peek(ep, s) => format!("peek {} {}", ep, s.line()),
+            Op::Swap => "swap".to_string(),
+            Op::AppClr(ns) => format!("appclr {}", ns.iter().map(|n| n.to_string()).collect::<Vec<_>>().join(",")),
         }
     }
 }
@@ -111,6 +118,7 @@ pub struct Session {
     pub ttl: u64,
     handler: BlockHandler<u8>,
     last: Option<CoapRequest<u8>>,
+    held: Option<CoapRequest<u8>>,
     pub ops: Vec<Op>,
     pub outs: Vec<StepOut>,
 }
@@ -131,6 +139,7 @@ impl Session {
             ttl,
             handler: BlockHandler::new(BlockHandlerConfig { max_total_message_size: m, cache_expiry_duration: Duration::from_millis(ttl) }),
             last: None,
+            held: None,
             ops: vec![],
             outs: vec![],
         }
@@ -191,6 +200,18 @@ impl Session {
                     so
                 }
             },
+            Op::Swap => {
+                std::mem::swap(&mut self.last, &mut self.held);
+                StepOut { outcome: Outcome::Ok(false), resp: None, req_payload: vec![], peek: None, text: "S".into() }
+            }
+            Op::AppClr(ns) => {
+                if let Some(resp) = self.last.as_mut().and_then(|r| r.response.as_mut()) {
+                    for n in ns {
+                        resp.message.clear_option(CoapOption::from(*n));
+                    }
+                }
+                StepOut { outcome: Outcome::Ok(false), resp: None, req_payload: vec![], peek: None, text: "C".into() }
+            }
             Op::Peek(ep, spec) => {
                 let built = guarded(|| CoapRequest::from_packet(spec.build(), *ep));
                 let peek = built.and_then(|req| guarded(|| self.peek_of(&req)).unwrap_or(None));
@@ -298,6 +319,9 @@ pub struct Download<'a> {
     pub resp_opts: Vec<(u16, Vec<u8>)>,
     pub first_szx: Option<u8>,
     pub reduce_at: Option<(usize, u8)>, // at block index j switch to smaller szx
+    /// tokens of the follow-up requests (cycled); empty = the first request's token. RFC 7959: every
+    /// block is its own exchange, the token (and its length) may change
+    pub followup_toks: Vec<Vec<u8>>,
 }
 
 pub fn run_download(cx: &mut Ctx, d: &Download, sess: &mut Session, check_release: bool) {
@@ -346,10 +370,15 @@ pub fn run_download(cx: &mut Ctx, d: &Download, sess: &mut Session, check_releas
     let mut offset = 0usize;
     let mut blocks = 0usize;
     let mut cur_size_cap: Option<usize> = d.first_szx.map(|s| 16usize << s);
+    let mut cur_tok: Vec<u8> = shape.tok.clone();
     loop {
         // ---- checks on this response
-        if resp.header.message_id != mid || resp.get_token() != &shape.tok[..] {
-            problems.push(("C12", format!("reply carries mid {} / token {} instead of the request's {} / {}", resp.header.message_id, hex(resp.get_token()), mid, hex(&shape.tok))));
+        if resp.header.message_id != mid || resp.get_token() != &cur_tok[..] {
+            problems.push(("C12", format!("reply carries mid {} / token {} instead of the request's {} / {}", resp.header.message_id, hex(resp.get_token()), mid, hex(&cur_tok))));
+        }
+        // the token length in the header is the length of the token that is sent
+        if resp.header.get_token_length() as usize != resp.get_token().len() {
+            problems.push(("C12", format!("reply header says token length {} but the token has {} bytes", resp.header.get_token_length(), resp.get_token().len())));
         }
         let wire_len = resp.to_bytes_unlimited().map(|b| b.len()).unwrap_or(usize::MAX);
         let blk = first_opt(&resp, 23).and_then(|b| parse_bv(&b));
@@ -416,7 +445,9 @@ pub fn run_download(cx: &mut Ctx, d: &Download, sess: &mut Session, check_releas
                     break;
                 }
                 mid = mid.wrapping_add(1);
-                let o = sess.step(Op::Req(d.ep, shape.spec(mid, None, Some(bv_bytes(offset / nsize, false, next_szx)), &[])));
+                let fshape: ReqShape = if d.followup_toks.is_empty() { shape.clone() } else { ReqShape { tok: d.followup_toks[blocks % d.followup_toks.len()].clone(), ..shape.clone() } };
+                cur_tok = fshape.tok.clone();
+                let o = sess.step(Op::Req(d.ep, fshape.spec(mid, None, Some(bv_bytes(offset / nsize, false, next_szx)), &[])));
                 match (&o.outcome, &o.resp) {
                     (Outcome::Ok(true), Some(r)) => resp = r.clone(),
                     (oc, _) => {
@@ -799,6 +830,58 @@ fn run_script_ops(sess: &mut Session, sc: &Script, idx: usize) -> Vec<String> {
     out
 }
 
+/// two transfers whose exchanges OVERLAP (a pipelined server): request 1, request 2, then the
+/// application's replies in either order; each transfer must observe what it observes alone
+pub fn run_pipelined(cx: &mut Ctx, s1: &Script, s2: &Script, m: usize, second_first: bool) {
+    let solo = |sc: &Script| -> Vec<Vec<String>> {
+        let mut sess = Session::new(m, 3_600_000);
+        (0..sc.steps.len()).map(|i| run_script_ops(&mut sess, sc, i)).collect()
+    };
+    let (t1, t2) = (solo(s1), solo(s2));
+    let mut sess = Session::new(m, 3_600_000);
+    let mut problems: Vec<(&'static str, String)> = vec![];
+    let short = |t: &str| t.split(" K").next().unwrap_or("").to_string();
+    for i in 0..s1.steps.len().min(s2.steps.len()) {
+        let mut o1: Vec<String> = vec![];
+        let mut o2: Vec<String> = vec![];
+        let r1 = sess.step(Op::Req(s1.ep, s1.steps[i].0.clone()));
+        o1.push(short(&r1.text));
+        sess.step(Op::Swap); // request 1 is held aside
+        let r2 = sess.step(Op::Req(s2.ep, s2.steps[i].0.clone()));
+        o2.push(short(&r2.text));
+        // pending = request 2, held = request 1
+        let answer = |sess: &mut Session, sc: &Script, r: &StepOut, o: &mut Vec<String>| {
+            if r.outcome == Outcome::Ok(false) {
+                if let Some((opts, body)) = &sc.steps[i].1 {
+                    let a = sess.step(Op::App(0x45, opts.clone(), body.clone()));
+                    o.push(short(&a.text));
+                }
+            }
+        };
+        if second_first {
+            answer(&mut sess, s2, &r2, &mut o2);
+            sess.step(Op::Swap);
+            answer(&mut sess, s1, &r1, &mut o1);
+        } else {
+            sess.step(Op::Swap);
+            answer(&mut sess, s1, &r1, &mut o1);
+            sess.step(Op::Swap);
+            answer(&mut sess, s2, &r2, &mut o2);
+        }
+        for (which, o, t, r, spec) in [(1, &o1, &t1[i], &r1, &s1.steps[i].0), (2, &o2, &t2[i], &r2, &s2.steps[i].0)] {
+            if o != t {
+                problems.push(("C12", format!("overlapping exchanges: transfer {}, exchange {}: observed {:?} but alone it observes {:?}", which, i, o, t)));
+            }
+            if let Some(rp) = &r.resp {
+                if rp.header.message_id != spec.mid || rp.get_token() != &spec.tok[..] {
+                    problems.push(("C12", "reply does not carry the message id / token of the request being answered".into()));
+                }
+            }
+        }
+    }
+    report(cx, &sess, problems);
+}
+
 fn interleavings(a: usize, b: usize, f: &mut dyn FnMut(&[u8])) {
     fn rec(a: usize, b: usize, cur: &mut Vec<u8>, f: &mut dyn FnMut(&[u8])) {
         if a == 0 && b == 0 {
@@ -1001,7 +1084,7 @@ pub fn run(cx: &mut Ctx) {
     // ---- corpus: witnesses of D13..D16 and K1
     {
         let mut s = Session::new(64, 60000);
-        run_download(cx, &Download { shape: &shapes[0], ep: 1, m: 64, body: vec![], resp_opts: vec![], first_szx: Some(2), reduce_at: None }, &mut s, true);
+        run_download(cx, &Download { shape: &shapes[0], ep: 1, m: 64, body: vec![], resp_opts: vec![], first_szx: Some(2), reduce_at: None, followup_toks: vec![] }, &mut s, true);
         let mut s = Session::new(22, 60000);
         s.step(Op::Req(1, shapes[0].spec(1, Some(bv_bytes(0, true, 0)), None, &[1; 16])));
         let l = s.emit(cx);
@@ -1042,7 +1125,7 @@ pub fn run(cx: &mut Ctx) {
                 let m = ov0 + 12 + s + (len % s.min(8));
                 let body = body_of(&mut rng, len);
                 let mut sess = Session::new(m, 60000);
-                run_download(cx, &Download { shape, ep: 1, m, body, resp_opts: if len % 3 == 0 { vec![(12, vec![40]), (4, vec![1, 2, 3])] } else { vec![] }, first_szx: *pref, reduce_at: None }, &mut sess, len % 4 == 0);
+                run_download(cx, &Download { shape, ep: 1, m, body, resp_opts: if len % 3 == 0 { vec![(12, vec![40]), (4, vec![1, 2, 3])] } else { vec![] }, first_szx: *pref, reduce_at: None, followup_toks: vec![] }, &mut sess, len % 4 == 0);
             }
         }
     }
@@ -1053,7 +1136,7 @@ pub fn run(cx: &mut Ctx) {
             let shape = &shapes[0];
             let body = body_of(&mut rng, 150);
             let mut sess = Session::new(m + 40, 60000);
-            run_download(cx, &Download { shape, ep: 1, m: m + 40, body, resp_opts: ropts.clone(), first_szx: Some(0), reduce_at: None }, &mut sess, true);
+            run_download(cx, &Download { shape, ep: 1, m: m + 40, body, resp_opts: ropts.clone(), first_szx: Some(0), reduce_at: None, followup_toks: vec![] }, &mut sess, true);
         }
     }
     let lens: Vec<usize> = if thorough { vec![0, 15, 16, 17, 1023, 1024, 1025, 2048, 4097, 20000] } else { vec![0, 15, 16, 17, 1023, 1024, 1025, 5000] };
@@ -1064,7 +1147,7 @@ pub fn run(cx: &mut Ctx) {
                 let body = body_of(&mut rng, len);
                 let mut sess = Session::new(m, 60000);
                 let reduce = if pref.is_none() && len > 64 { Some((1usize + (m % 3), 0u8)) } else { None };
-                run_download(cx, &Download { shape, ep: 2, m, body, resp_opts: vec![], first_szx: pref, reduce_at: reduce }, &mut sess, true);
+                run_download(cx, &Download { shape, ep: 2, m, body, resp_opts: vec![], first_szx: pref, reduce_at: reduce, followup_toks: vec![] }, &mut sess, true);
             }
         }
     }
@@ -1093,10 +1176,22 @@ pub fn run(cx: &mut Ctx) {
                             }
                             let body = body_of(&mut rng, (1usize << j) * 2 + 5);
                             let mut sess = Session::new(m as usize, 60000);
-                            run_download(cx, &Download { shape, ep: 3, m: m as usize, body, resp_opts: ropts.clone(), first_szx: pref, reduce_at: None }, &mut sess, false);
+                            run_download(cx, &Download { shape, ep: 3, m: m as usize, body, resp_opts: ropts.clone(), first_szx: pref, reduce_at: None, followup_toks: vec![] }, &mut sess, false);
                         }
                     }
                 }
+            }
+        }
+    }
+    // follow-up requests whose token differs (also in LENGTH) from the first request's token, at
+    // every budget in a band above the overhead: every block must still fit and carry that token
+    for first_tkl in [0usize, 1, 4, 8] {
+        for follow in [vec![vec![9u8; 8]], vec![vec![], vec![1, 2, 3, 4, 5, 6, 7, 8]], vec![vec![1], vec![1, 0]], vec![vec![5; 4]]] {
+            let shape = ReqShape { typ: 0, code: 1, tok: vec![0xee; first_tkl], path: vec![b"x".to_vec()], extra: vec![] };
+            for m in 40..=90usize {
+                let body = body_of(&mut rng, 700);
+                let mut sess = Session::new(m, 60000);
+                run_download(cx, &Download { shape: &shape, ep: 1, m, body, resp_opts: vec![], first_szx: None, reduce_at: None, followup_toks: follow.clone() }, &mut sess, false);
             }
         }
     }
@@ -1116,7 +1211,7 @@ pub fn run(cx: &mut Ctx) {
                 }
                 let body = body_of(&mut rng, len as usize);
                 let mut sess = Session::new(m, 60000);
-                run_download(cx, &Download { shape, ep: 1, m, body, resp_opts: vec![], first_szx: None, reduce_at: None }, &mut sess, false);
+                run_download(cx, &Download { shape, ep: 1, m, body, resp_opts: vec![], first_szx: None, reduce_at: None, followup_toks: vec![] }, &mut sess, false);
             }
         }
     }
@@ -1153,7 +1248,7 @@ pub fn run(cx: &mut Ctx) {
         let pref = if rng.chance(1, 2) { Some(rng.below(7) as u8) } else { None };
         let reduce = if rng.chance(1, 3) { Some((rng.range(1, 3) as usize, rng.below(3) as u8)) } else { None };
         let mut sess = Session::new(m, 60000);
-        run_download(cx, &Download { shape: &shape, ep: 1, m, body, resp_opts: if rng.chance(1, 3) { vec![(12, vec![60])] } else { vec![] }, first_szx: pref, reduce_at: reduce }, &mut sess, rng.chance(1, 2));
+        run_download(cx, &Download { shape: &shape, ep: 1, m, body, resp_opts: if rng.chance(1, 3) { vec![(12, vec![60])] } else { vec![] }, first_szx: pref, reduce_at: reduce, followup_toks: vec![] }, &mut sess, rng.chance(1, 2));
     }
 
     // ---- B. Block1 uploads
@@ -1374,6 +1469,14 @@ pub fn run(cx: &mut Ctx) {
         let s1 = upload_script(&ReqShape { code: 3, ..base.clone() }, 1, &body1, 0, 10);
         let s2 = upload_script(&ReqShape { code: if v.code == 1 { 3 } else { 4 }, ..v.clone() }, *ep2, &body2, 0, 10);
         run_interleavings(cx, &s1, &s2, 48);
+        // overlapping exchanges (request 1, request 2, reply 1, reply 2 and the other order), with
+        // distinct and with equal message ids / tokens
+        for midbase2 in [40u16, 10] {
+            for second_first in [false, true] {
+                run_pipelined(cx, &download_script(&base, 1, &body1, 0, 10), &download_script(v, *ep2, &body2, 0, midbase2), 48, second_first);
+                run_pipelined(cx, &download_script(&base, 1, &body1, 0, 10), &upload_script(&ReqShape { code: if v.code == 1 { 3 } else { v.code }, ..v.clone() }, *ep2, &body2, 0, midbase2), 48, second_first);
+            }
+        }
     }
     // ---- D2. every registered option as an extra request option (typed values of several magnitudes)
     //          on a small upload and a small download: options the handler does not interpret must not
@@ -1396,7 +1499,7 @@ pub fn run(cx: &mut Ctx) {
                 }
                 let shape = ReqShape { code: 1, ..shape };
                 let mut sess = Session::new(64, 60000);
-                run_download(cx, &Download { shape: &shape, ep: 1, m: 64, body: body.clone(), resp_opts: vec![(n, val.clone())], first_szx: None, reduce_at: None }, &mut sess, true);
+                run_download(cx, &Download { shape: &shape, ep: 1, m: 64, body: body.clone(), resp_opts: vec![(n, val.clone())], first_szx: None, reduce_at: None, followup_toks: vec![] }, &mut sess, true);
             }
         }
     }
